@@ -20,19 +20,21 @@ import (
 var pipeCaps = []int{1 << 20, 4096, 64, 16, 7, 3, 2, 1}
 
 type c13Trace struct {
-	Frame          *gen.FrameSpec `json:"frame"`
-	Scramble       gen.Scramble   `json:"scramble"`
-	Header         bool           `json:"header"`
-	Columns        []string       `json:"columns,omitempty"`
-	EmptyNull      bool           `json:"empty_null"`
-	DeclareDerived bool           `json:"declare_derived_enum_values"`
-	PipeCap        int            `json:"pipe_cap"`
-	Policy         gen.PolicyDesc `json:"policy"`
-	Written        string         `json:"written,omitempty"`
-	Chunks         []int          `json:"chunks,omitempty"`
-	Expected       *obs.Frame     `json:"expected,omitempty"`
-	Observed       *obs.Frame     `json:"observed,omitempty"`
-	WriteErr       string         `json:"write_err,omitempty"`
+	Frame             *gen.FrameSpec `json:"frame"`
+	Scramble          gen.Scramble   `json:"scramble"`
+	Header            bool           `json:"header"`
+	HeaderOptionGiven bool           `json:"header_option_given,omitempty"`
+	OptionsReversed   bool           `json:"options_reversed,omitempty"`
+	Columns           []string       `json:"columns,omitempty"`
+	EmptyNull         bool           `json:"empty_null"`
+	DeclareDerived    bool           `json:"declare_derived_enum_values"`
+	PipeCap           int            `json:"pipe_cap"`
+	Policy            gen.PolicyDesc `json:"policy"`
+	Written           string         `json:"written,omitempty"`
+	Chunks            []int          `json:"chunks,omitempty"`
+	Expected          *obs.Frame     `json:"expected,omitempty"`
+	Observed          *obs.Frame     `json:"observed,omitempty"`
+	WriteErr          string         `json:"write_err,omitempty"`
 }
 
 // tee records every byte the writer produced.
@@ -68,6 +70,8 @@ func runC13(t *rapid.T) {
 	scr := gen.DrawScramble(t, fs)
 	tr := &c13Trace{Frame: fs, Scramble: scr}
 	tr.Header = rapid.IntRange(0, 3).Draw(t, "header") != 0
+	tr.HeaderOptionGiven = rapid.Bool().Draw(t, "headeroption") // Header(true) spelled out
+	tr.OptionsReversed = rapid.Bool().Draw(t, "optionsreversed")
 	tr.EmptyNull = rapid.Bool().Draw(t, "emptynull")
 	tr.PipeCap = pipeCaps[rapid.IntRange(0, len(pipeCaps)-1).Draw(t, "pipecap")]
 	if stress && tr.PipeCap < 512 {
@@ -156,11 +160,17 @@ func runC13(t *rapid.T) {
 	var got qframe.QFrame
 	doWrite := func(w io.Writer) error {
 		var opts []csv.ToConfigFunc
-		if !tr.Header {
-			opts = append(opts, csv.Header(false))
+		if !tr.Header || tr.HeaderOptionGiven {
+			opts = append(opts, csv.Header(tr.Header))
 		}
 		if tr.Columns != nil {
 			opts = append(opts, csv.Columns(tr.Columns))
+		}
+		if tr.OptionsReversed {
+			// options in either order: each sets what it is about, nothing else
+			for i, j := 0, len(opts)-1; i < j; i, j = i+1, j-1 {
+				opts[i], opts[j] = opts[j], opts[i]
+			}
 		}
 		return qf.ToCSV(w, opts...)
 	}
